@@ -3198,6 +3198,8 @@ def _option_test_value(t, kw, p, st):
     if option(t) is not None:
         if not present:
             return 'err' if option(t) == 'sub' else False
+        if n is None:
+            return False            # the option given explicitly as None is falsy
         return n > 0
     if isinstance(t, ast.Compare) and len(t.ops) == 1:
         l, op, r = t.left, t.ops[0], t.comparators[0]
@@ -3206,15 +3208,15 @@ def _option_test_value(t, kw, p, st):
         if option(l) is not None and isinstance(r, ast.Constant) and r.value is None and isinstance(op, (ast.Is, ast.IsNot, ast.Eq, ast.NotEq)):
             if not present and option(l) == 'sub':
                 return 'err'
-            return (not present) == isinstance(op, (ast.Is, ast.Eq))
+            return (not present or n is None) == isinstance(op, (ast.Is, ast.Eq))
         c = Cmp(l, type(op), r)
         k = const_value(c.rhs)
         if isinstance(const_value(c.lhs), int) and not isinstance(const_value(c.lhs), bool):
             c, k = c.flipped(), const_value(c.lhs)
         if isinstance(c.lhs, ast.Call) and call_name(c.lhs) == 'len' and len(c.lhs.args) == 1 and option(c.lhs.args[0]) is not None and \
                 isinstance(k, int) and not isinstance(k, bool) and c.rel in _SWAP:
-            if not present:
-                return 'err'
+            if not present or n is None:
+                return 'err'            # len(None)
             return {'<': n < k, '<=': n <= k, '>': n > k, '>=': n >= k, '==': n == k, '!=': n != k}[c.rel]
     return None
 
@@ -3238,7 +3240,7 @@ def _d13_option_guard(ck, rule, mod, fn, fi, q, store, kw, p):
     tests.reverse()
     construct = 'condition under which %s[%r] is striped: %s' % (kw, p, ' and '.join(('%s' if pol else 'not (%s)') % u(t)[:80] for t, pol in tests) or 'always')
     verdicts = {}
-    for st in ((False, 0), (True, 0), (True, 1), (True, 2), (True, 5)):
+    for st in ((False, 0), (True, None), (True, 0), (True, 1), (True, 2), (True, 5)):
         val = True
         for t, pol in tests:
             r = _option_test_value(t, kw, p, st)
@@ -3258,6 +3260,11 @@ def _d13_option_guard(ck, rule, mod, fn, fi, q, store, kw, p):
         ck.bad(rule, mod, store, q, construct,
                'when the option `%s` is not given, %s: %s raises KeyError on every rank for a call without the option' % (
                    p, 'the test itself subscripts %s[%r]' % (kw, p) if absent == 'err' else 'the store still runs and reads %s[%r]' % (kw, p), q))
+    elif verdicts[(True, None)] is not False:
+        ck.bad(rule, mod, store, q, construct + ' [option given as None]',
+               'when `%s=None` is passed explicitly (the documented default of the serial loader, which accepts it) %s: TypeError on every rank '
+               'before any file is opened; the serial definition returns the data' % (
+                   p, 'the test evaluates len(None)' if verdicts[(True, None)] == 'err' else 'the store runs and subscripts None'))
     elif any(v is not True for v in many) or verdicts[(True, 0)] == 'err' or verdicts[(True, 1)] == 'err':
         ck.bad(rule, mod, store, q, construct,
                'when `%s` is given with one entry per file for two or more files the store does not run: the callee receives ALL entries next to its '
